@@ -151,7 +151,8 @@ def gates(c, tier):
     for k in ("schedule:random", "schedule:sequential", "schedule:alternation", "alternations>=10", "direct:registered-decodes-custom",
               "direct:unregistered-generic-control", "direct:unregistered-filter-protocolerror", "direct:unregistered-auth-protocolerror",
               "direct:duplicate-refused", "direct:builtin-clash-refused", "custom-bytes-in-sequence", "registration-in-sequence",
-              "caller-buffer-shared-between-sessions", "direct:multi-control-messages", "direct:same-number-different-form", "direct:nested-custom-filter", "direct:deepcopy-independence", "fresh-process-reference-runs"):
+              "caller-buffer-shared-between-sessions", "direct:multi-control-messages", "direct:same-number-different-form", "direct:nested-custom-filter", "direct:deepcopy-independence", "fresh-process-reference-runs",
+              "direct:late-registration-decodes-custom"):
         if c.get(k, 0) == 0:
             out.append(f"never observed {k}")
     for sub in range(8):
@@ -512,6 +513,69 @@ def direct_checks():
                 decoded_custom = False
             if decoded_custom != expect_custom:
                 vio.append((f"deepcopy-shares-registrations:{kind}:{name}", f"{name} {'decodes' if decoded_custom else 'does not decode'} the custom {kind}"))
+    # a registration made after the session has already carried traffic (of the same sort, including the very bytes
+    # that were an unknown type until then) takes effect from that point on, for every later registration too
+    def _warm_server():
+        w = sl.LDAPServer()
+        U = ("1.2.3.4.5.6.7", False, b"u", None)
+        P = ("1.2.840.113556.1.4.319", False, None, ("paged", 10, b"ck"))
+        CG = (CUSTOM_CONTROL_OID, True, struct.pack("<I", 9), None)
+        OG = ("1.2.3.4.98", False, b"t", None)
+        w.receive(rfc4511.encode(("ExtendedRequest", 1, ("1.2.3", None), (U, P, CG, OG))))
+        w.receive(rfc4511.encode(("SearchRequest", 2, ("dc=x", 2, 0, 0, 0, False, ("and", (("eq", "cn", b"x"), ("not", ("present", "sn")))), ()), (U,))))
+        w.extended_response(1)
+        w.search_result_done(2)
+        w.receive(rfc4511.encode(("BindRequest", 3, (3, "cn=a", ("simple", "pw")), ())))
+        w.bind_response(3)
+        w.receive(rfc4511.encode(("BindRequest", 4, (3, "cn=a", ("sasl", "EXTERNAL", None)), ())))
+        w.bind_response(4)
+        w.data_to_send()
+        return w
+
+    late_cases = [("control", CustomControl, lambda i: bytes_custom_control(i, "server")), ("filter", CustomFilter, bytes_custom_filter), ("auth", CustomAuth, bytes_custom_auth),
+                  ("control2", OtherControl, lambda i: bytes_other("control", i, "server")), ("filter2", OtherFilter, lambda i: bytes_other("filter", i, "server")),
+                  ("auth2", OtherAuth, lambda i: bytes_other("auth", i, "server"))]
+    for first in range(len(late_cases)):
+        try:
+            w = _warm_server()
+            nid = 10
+            order = late_cases[first:] + late_cases[:first]
+            for kind, cls4, mk in order[:3]:
+                getattr(w, REG[kind][0])(cls4)
+                nid += 1
+                try:
+                    got = w.receive(mk(nid))[0]
+                    ok = cls4.__name__ in repr(got)
+                    what = repr(got)[:160]
+                except sl.ProtocolError as e:
+                    ok, what = False, f"ProtocolError: {e}"
+                if not ok:
+                    vio.append((f"late-registration-ignored:{kind.rstrip('2')}", f"{cls4.__name__} registered after the session had carried traffic, then received: {what}"))
+                    break
+                obs["direct:late-registration-decodes-custom"] = obs.get("direct:late-registration-decodes-custom", 0) + 1
+                if w.state.name == "BINDING":
+                    w.bind_response(nid)
+                elif "Search" in type(got).__name__:
+                    w.search_result_done(nid)
+                else:
+                    w.extended_response(nid)
+                w.data_to_send()
+        except Exception as e:  # the warm-up itself failing is the harness's problem or another property's
+            vio.append((f"late-registration-harness:{type(e).__name__}", f"{e}"))
+    # client side: a control type registered after responses with controls were received
+    try:
+        cl = sl.LDAPClient()
+        sid = cl.search_request("dc=x")
+        cl.data_to_send()
+        cl.receive(rfc4511.encode(("SearchResultEntry", sid, ("cn=x", ()), (("1.2.3.4.5.6.7", False, b"u", None), (CUSTOM_CONTROL_OID, False, struct.pack("<I", 3), None)))))
+        cl.register_control(CustomControl)
+        got = cl.receive(bytes_custom_control(sid, "client"))[0]
+        if type(got.controls[0]) is not CustomControl:
+            vio.append(("late-registration-ignored:control:client", f"client registered CustomControl after receiving controls, then decoded {got.controls[0]!r}"))
+        else:
+            obs["direct:late-registration-decodes-custom"] = obs.get("direct:late-registration-decodes-custom", 0) + 1
+    except sl.LDAPError as e:
+        vio.append(("late-registration-ignored:control:client", f"{type(e).__name__}: {e}"))
     # the custom filter nested under and / or / not
     regf = sl.LDAPServer()
     regf.register_filter(CustomFilter)
